@@ -181,9 +181,9 @@ Fixpoint eval (e : rexpr) (en : env) : eres :=
       | EOk vb =>
         match va, vb with
         | VStr s, VInt p => EOk (VTok s (Some p))
-        | VTok s _, VInt p => EOk (VTok s (Some p))
+        | VTok s q, VInt _ => EOk (VTok s q)    (* Token(tok, p) keeps tok's own position: C13token A1 *)
         | VStr s, VNone => EOk (VTok s None)
-        | VTok s _, VNone => EOk (VTok s None)
+        | VTok s q, VNone => EOk (VTok s q)
         | _, _ => EUnsup
         end
       | r => r
@@ -193,7 +193,7 @@ Fixpoint eval (e : rexpr) (en : env) : eres :=
   | RToken1 a =>
     match eval a en with
     | EOk (VStr s) => EOk (VTok s None)
-    | EOk (VTok s _) => EOk (VTok s None)
+    | EOk (VTok s q) => EOk (VTok s q)
     | EOk _ => EUnsup
     | r => r
     end
